@@ -380,23 +380,23 @@ func (s *Stream) compileExpressionInfo() {
 			s.hasUnnestFunction = true
 		}
 
-		// Pre-compile expression object (only for non-function call expressions)
-		if !exprInfo.isFunctionCall {
-			exprToCompile := fieldExpr.Expression
-			if exprInfo.needsBacktickPreprocess {
-				if processed, err := bridge.PreprocessBacktickIdentifiers(exprToCompile); err == nil {
-					exprToCompile = processed
-				}
+		// Pre-compile expression object. Expressions with parentheses are evaluated by the
+		// bridge first; the compiled object is their fallback when the bridge cannot
+		// evaluate them (SQL keywords such as CASE/AND/OR/=, NULL operands).
+		exprToCompile := fieldExpr.Expression
+		if exprInfo.needsBacktickPreprocess {
+			if processed, err := bridge.PreprocessBacktickIdentifiers(exprToCompile); err == nil {
+				exprToCompile = processed
 			}
-			if compiledExpr, err := expr.NewExpression(exprToCompile); err == nil {
-				exprInfo.compiledExpr = compiledExpr
-				// Fast path: when compiledExpr is available and the expression has no
-				// quote/backtick characters (so it is not string concatenation or a
-				// quoted identifier), evaluate directly via compiledExpr and skip the
-				// bridge's per-row isStringConcatenation/usesExprFunction checks.
-				if !strings.ContainsAny(fieldExpr.Expression, "'\"`") {
-					exprInfo.compiledExprFastPath = true
-				}
+		}
+		if compiledExpr, err := expr.NewExpression(exprToCompile); err == nil {
+			exprInfo.compiledExpr = compiledExpr
+			// Fast path: when compiledExpr is available and the expression has no
+			// quote/backtick characters (so it is not string concatenation or a
+			// quoted identifier), evaluate directly via compiledExpr and skip the
+			// bridge's per-row isStringConcatenation/usesExprFunction checks.
+			if !strings.ContainsAny(fieldExpr.Expression, "'\"`") {
+				exprInfo.compiledExprFastPath = true
 			}
 		}
 
@@ -420,9 +420,23 @@ func (s *Stream) processExpressionField(fieldName string, dataMap map[string]any
 		// For function calls, use bridge processor
 		exprResult, err := bridge.EvaluateExpression(exprInfo.processedExpr, dataMap)
 		if err != nil {
-			s.log.Error("Function call evaluation failed for field %s: %v", fieldName, err)
-			result[fieldName] = nil
-			return
+			// The bridge (expr-lang) does not know CASE, AND/OR, '=' and fails on NULL
+			// operands; the custom engine handles those, so try it before giving up.
+			if exprInfo.compiledExpr == nil {
+				s.log.Error("Function call evaluation failed for field %s: %v", fieldName, err)
+				result[fieldName] = nil
+				return
+			}
+			customResult, isNull, evalErr := exprInfo.compiledExpr.EvaluateValueWithNull(dataMap)
+			if evalErr != nil {
+				s.log.Error("Function call evaluation failed for field %s: %v", fieldName, err)
+				result[fieldName] = nil
+				return
+			}
+			if isNull {
+				customResult = nil
+			}
+			exprResult = customResult
 		}
 		evalResult = exprResult
 	} else if exprInfo.hasNestedFields {
